@@ -80,6 +80,34 @@ pub proof fn lemma_laguerre_filter_bibo(i: LaguerreFilterOwn, h: Seq<T>, b: real
 // the Lyapunov form of the state then never exceeds m^2 with (1 - a1) m == c1 b  (lemma_two_pole_forced), and it dominates the output:
 // (1 - cos^2) f^2 <= m^2.  Neither m nor the cosine depends on the length of the stream.
 pub open spec fn ss_cos(n: nat) -> real { r_cos(rdiv(44422real / 10000real, n as real)) }
+// one step: state form within m^2, previous input and new input within [-b, b]  ==>  the same after the step
+pub proof fn lemma_super_smoother_bibo_step(o: SuperSmootherOwn, y: T, n: nat, b: real, m: real)
+    requires n >= 1, o.c1 == mk(ss_c1(n)), o.c2 == mk(ss_b1(n)), o.c3 == mk(ss_c3(n)), b >= 0real, m >= 0real, (1real - ss_a1(n)) * m == ss_c1(n) * b,
+        -b <= y.v() <= b, -b <= o.x1.v() <= b, ss_form(n, o.f1.v(), o.f2.v()) <= m * m
+    ensures ({ let nx = super_smoother_own_step(o, y);
+               nx.c1 == o.c1 && nx.c2 == o.c2 && nx.c3 == o.c3 && nx.x1 == y && ss_form(n, nx.f1.v(), nx.f2.v()) <= m * m
+               && (1real - ss_cos(n) * ss_cos(n)) * (nx.f1.v() * nx.f1.v()) <= m * m })
+{
+    lemma_ss_coeffs(n);
+    let a = ss_a1(n); let c = ss_cos(n);
+    ax_cos_bound(rdiv(44422real / 10000real, n as real));
+    let c1 = ss_c1(n);
+    assert(c1 > 0real);
+    let w = y.v() + o.x1.v();
+    let u = rdiv(c1 * w, 2real);
+    lemma_rdiv_mul(c1 * w, 2real);
+    assert(c1 * w <= c1 * (2real * b)) by(nonlinear_arith) requires c1 > 0real, w <= 2real * b;
+    assert(c1 * w >= -(c1 * (2real * b))) by(nonlinear_arith) requires c1 > 0real, w >= -(2real * b);
+    assert(c1 * (2real * b) == 2real * (c1 * b)) by(nonlinear_arith);
+    let ub = c1 * b;
+    assert(ub >= 0real) by(nonlinear_arith) requires ub == c1 * b, c1 > 0real, b >= 0real;
+    assert(-ub <= u <= ub);
+    lemma_two_pole_forced(a, c, o.f2.v(), o.f1.v(), u, m, ub);
+    let nx = super_smoother_own_step(o, y);
+    assert(nx.f1.v() == u + (ss_b1(n) * o.f1.v() + ss_c3(n) * o.f2.v()));
+    assert(nx.f2 == o.f1 && nx.x1 == y);
+    lemma_two_pole_form_dominates(a, c, nx.f1.v(), nx.f2.v());
+}
 pub proof fn lemma_super_smoother_bibo(i: SuperSmootherOwn, h: Seq<T>, n: nat, b: real, m: real)
     requires n >= 1, i.c1 == mk(ss_c1(n)), i.c2 == mk(ss_b1(n)), i.c3 == mk(ss_c3(n)), i.f1.v() == 0real, i.f2.v() == 0real, i.x1.v() == 0real,
         b >= 0real, m >= 0real, all_within(h, b), (1real - ss_a1(n)) * m == ss_c1(n) * b
@@ -89,36 +117,187 @@ pub proof fn lemma_super_smoother_bibo(i: SuperSmootherOwn, h: Seq<T>, n: nat, b
                && (1real - ss_cos(n) * ss_cos(n)) * (s.1.f1.v() * s.1.f1.v()) <= m * m })
     decreases h.len()
 {
-    lemma_ss_coeffs(n);
-    let a = ss_a1(n); let c = ss_cos(n);
-    ax_cos_bound(rdiv(44422real / 10000real, n as real));
+    let c = ss_cos(n);
     if h.len() > 0 {
         let hd = h.drop_last(); let y = h.last();
         assert(-b <= y.v() <= b) by { assert(h.last() == h[h.len() - 1]); }
         assert(all_within(hd, b)) by { assert forall|k: int| 0 <= k < hd.len() implies -b <= (#[trigger] hd[k]).v() <= b by { assert(hd[k] == h[k]); } }
         lemma_super_smoother_bibo(i, hd, n, b, m);
         let s = run::<SuperSmoother<Echo>>((None::<T>, i), hd);
-        let o = s.1;
-        let c1 = ss_c1(n);
-        assert(c1 > 0real);
-        let w = y.v() + o.x1.v();
-        let u = rdiv(c1 * w, 2real);
-        lemma_rdiv_mul(c1 * w, 2real);
-        assert(c1 * w <= c1 * (2real * b)) by(nonlinear_arith) requires c1 > 0real, w <= 2real * b;
-        assert(c1 * w >= -(c1 * (2real * b))) by(nonlinear_arith) requires c1 > 0real, w >= -(2real * b);
-        assert(c1 * (2real * b) == 2real * (c1 * b)) by(nonlinear_arith);
-        let ub = c1 * b;
-        assert(ub >= 0real) by(nonlinear_arith) requires ub == c1 * b, c1 > 0real, b >= 0real;
-        assert(-ub <= u <= ub);
-        lemma_two_pole_forced(a, c, o.f2.v(), o.f1.v(), u, m, ub);
-        let nx = super_smoother_own_step(o, y);
-        assert(nx.f1.v() == u + (ss_b1(n) * o.f1.v() + ss_c3(n) * o.f2.v()));
-        assert(nx.f2 == o.f1 && nx.x1 == y);
-        lemma_two_pole_form_dominates(a, c, nx.f1.v(), nx.f2.v());
+        lemma_super_smoother_bibo_step(s.1, y, n, b, m);
     } else {
         assert(run::<SuperSmoother<Echo>>((None::<T>, i), h) == (None::<T>, i));
         assert(ss_form(n, 0real, 0real) == 0real) by(nonlinear_arith) requires ss_form(n, 0real, 0real) == 0real * 0real - ss_b1(n) * (0real * 0real) + (ss_a1(n) * ss_a1(n)) * (0real * 0real);
         assert(m * m >= 0real) by(nonlinear_arith);
         assert((1real - c * c) * (0real * 0real) == 0real) by(nonlinear_arith);
+    }
+}
+
+// ---- RoofingFilter: a double-pole high-pass (cascade of two one-pole sections, lemma_double_pole_forced) feeding a SuperSmoother.
+// Inputs within [-b, b] keep the high-pass within hb, hence the smoother's Lyapunov form within m^2 – for ever, with
+//   ub == (1 - alpha/2)^2 * 4 b,  (1 - rho) wb == ub,  (1 - rho) hb == wb,  |1 - alpha| <= rho < 1,  (1 - a1(M)) m == c1(M) hb.
+pub open spec fn roof_within(o: RoofingFilterOwn, mlen: nat, b: real, wb: real, hb: real, m: real) -> bool {
+    -b <= o.x1.v() <= b && -b <= o.x2.v() <= b
+    && -wb <= o.h1.v() - (1real - o.alpha.v()) * o.h2.v() <= wb && -hb <= o.h1.v() <= hb
+    && o.ss.1.c1 == mk(ss_c1(mlen)) && o.ss.1.c2 == mk(ss_b1(mlen)) && o.ss.1.c3 == mk(ss_c3(mlen))
+    && -hb <= o.ss.1.x1.v() <= hb && ss_form(mlen, o.ss.1.f1.v(), o.ss.1.f2.v()) <= m * m
+    && (1real - ss_cos(mlen) * ss_cos(mlen)) * (o.ss.1.f1.v() * o.ss.1.f1.v()) <= m * m
+}
+pub proof fn lemma_roofing_bibo_step(o: RoofingFilterOwn, y: T, mlen: nat, b: real, rho: real, ub: real, wb: real, hb: real, m: real)
+    requires mlen >= 1, b >= 0real, m >= 0real, -b <= y.v() <= b, roof_within(o, mlen, b, wb, hb, m),
+        -rho <= 1real - o.alpha.v() <= rho, 0real <= rho < 1real,
+        ub == r_powi(1real - rdiv(o.alpha.v(), 2real), 2) * (4real * b), (1real - rho) * wb == ub, (1real - rho) * hb == wb,
+        (1real - ss_a1(mlen)) * m == ss_c1(mlen) * hb
+    ensures ({ let nx = roofing_filter_own_step(o, y); nx.alpha == o.alpha && nx.n == o.n && roof_within(nx, mlen, b, wb, hb, m) })
+{
+    let al = o.alpha.v(); let r = 1real - al;
+    let g = r_powi(1real - rdiv(al, 2real), 2);
+    ax_powi2(1real - rdiv(al, 2real)); ax_powi2(r);
+    lemma_sq_nonneg(1real - rdiv(al, 2real));
+    assert(g >= 0real);
+    let d = y.v() - 2real * o.x1.v() + o.x2.v();
+    assert(-(4real * b) <= d <= 4real * b);
+    let u = g * d;
+    assert(g * d <= g * (4real * b)) by(nonlinear_arith) requires g >= 0real, d <= 4real * b;
+    assert(g * d >= -(g * (4real * b))) by(nonlinear_arith) requires g >= 0real, d >= -(4real * b);
+    assert(ub >= 0real) by(nonlinear_arith) requires ub == g * (4real * b), g >= 0real, b >= 0real;
+    lemma_double_pole_forced(r, rho, u, o.h1.v(), o.h2.v(), ub, wb, hb);
+    let hp = roof_hp(o, y);
+    assert(hp == u + 2real * r * o.h1.v() - (r * r) * o.h2.v());
+    let nx = roofing_filter_own_step(o, y);
+    assert(nx.h1.v() == hp && nx.h2 == o.h1 && nx.x1 == y && nx.x2 == o.x1);
+    if o.k > o.n {
+        lemma_super_smoother_bibo_step(o.ss.1, mk(hp), mlen, hb, m);
+        assert(nx.ss.1 == super_smoother_own_step(o.ss.1, mk(hp)));
+    } else {
+        assert(nx.ss == o.ss);
+    }
+}
+pub proof fn lemma_roofing_filter_bibo(i: RoofingFilterOwn, h: Seq<T>, mlen: nat, b: real, rho: real, ub: real, wb: real, hb: real, m: real)
+    requires mlen >= 1, b >= 0real, m >= 0real, all_within(h, b),
+        i.x1.v() == 0real, i.x2.v() == 0real, i.h1.v() == 0real, i.h2.v() == 0real,
+        i.ss.1.c1 == mk(ss_c1(mlen)), i.ss.1.c2 == mk(ss_b1(mlen)), i.ss.1.c3 == mk(ss_c3(mlen)), i.ss.1.f1.v() == 0real, i.ss.1.f2.v() == 0real, i.ss.1.x1.v() == 0real,
+        -rho <= 1real - i.alpha.v() <= rho, 0real <= rho < 1real,
+        ub == r_powi(1real - rdiv(i.alpha.v(), 2real), 2) * (4real * b), (1real - rho) * wb == ub, (1real - rho) * hb == wb,
+        (1real - ss_a1(mlen)) * m == ss_c1(mlen) * hb
+    ensures ({ let s = run::<RoofingFilter<Echo>>((None::<T>, i), h); s.1.alpha == i.alpha && s.1.n == i.n && roof_within(s.1, mlen, b, wb, hb, m) })
+    decreases h.len()
+{
+    if h.len() > 0 {
+        let hd = h.drop_last(); let y = h.last();
+        assert(-b <= y.v() <= b) by { assert(h.last() == h[h.len() - 1]); }
+        assert(all_within(hd, b)) by { assert forall|k: int| 0 <= k < hd.len() implies -b <= (#[trigger] hd[k]).v() <= b by { assert(hd[k] == h[k]); } }
+        lemma_roofing_filter_bibo(i, hd, mlen, b, rho, ub, wb, hb, m);
+        let s = run::<RoofingFilter<Echo>>((None::<T>, i), hd);
+        lemma_roofing_bibo_step(s.1, y, mlen, b, rho, ub, wb, hb, m);
+    } else {
+        assert(run::<RoofingFilter<Echo>>((None::<T>, i), h) == (None::<T>, i));
+        let g = r_powi(1real - rdiv(i.alpha.v(), 2real), 2);
+        ax_powi2(1real - rdiv(i.alpha.v(), 2real)); lemma_sq_nonneg(1real - rdiv(i.alpha.v(), 2real));
+        assert(ub >= 0real) by(nonlinear_arith) requires ub == g * (4real * b), g >= 0real, b >= 0real;
+        assert(wb >= 0real) by(nonlinear_arith) requires (1real - rho) * wb == ub, ub >= 0real, rho < 1real;
+        assert(hb >= 0real) by(nonlinear_arith) requires (1real - rho) * hb == wb, wb >= 0real, rho < 1real;
+        assert((1real - i.alpha.v()) * 0real == 0real) by(nonlinear_arith);
+        assert(ss_form(mlen, 0real, 0real) == 0real) by(nonlinear_arith) requires ss_form(mlen, 0real, 0real) == 0real * 0real - ss_b1(mlen) * (0real * 0real) + (ss_a1(mlen) * ss_a1(mlen)) * (0real * 0real);
+        assert(m * m >= 0real) by(nonlinear_arith);
+        assert((1real - ss_cos(mlen) * ss_cos(mlen)) * (0real * 0real) == 0real) by(nonlinear_arith);
+    }
+}
+
+// ---- CyberCycle: the cycle recursion is a double pole at r = 1 - alpha driven by the second difference of the 4-tap smoother.
+// Inputs within [-b, b] keep every smoothed tap within b, the forcing term within ub == (1 - alpha/2)^2 * 4 b, and – by the cascade form of
+// lemma_double_pole_forced – every stored output within hb, with (1 - rho) wb == ub, (1 - rho) hb == wb, |1 - alpha| <= rho < 1.
+pub open spec fn cc_within(o: CyberCycleOwn, b: real, wb: real, hb: real) -> bool {
+    o.outs.len() == o.vals.len() && o.vals.len() <= o.n && all_within(o.vals, b) && all_within(o.outs, hb)
+    && (forall|j: int| 1 <= j < o.outs.len() ==> -wb <= (#[trigger] o.outs[j]).v() - (1real - o.alpha.v()) * o.outs[j - 1].v() <= wb)
+    && (o.vals.len() < o.n ==> forall|j: int| 0 <= j < o.outs.len() ==> (#[trigger] o.outs[j]).v() == 0real)
+}
+pub proof fn lemma_cc_sm_bound(v: Seq<T>, i: int, b: real)
+    requires all_within(v, b), b >= 0real, 0 <= i < v.len()
+    ensures -b <= cc_sm(v, i) <= b
+{
+    if i >= 3 {
+        let s = v[i].v() + 2real * v[i - 1].v() + 2real * v[i - 2].v() + v[i - 3].v();
+        lemma_rdiv_mul(s, 6real);
+        assert(-(6real * b) <= s <= 6real * b);
+    }
+}
+pub proof fn lemma_cyber_cycle_bibo_step(o: CyberCycleOwn, y: T, b: real, rho: real, ub: real, wb: real, hb: real)
+    requires o.n >= 3, b >= 0real, -b <= y.v() <= b, cc_within(o, b, wb, hb),
+        -rho <= 1real - o.alpha.v() <= rho, 0real <= rho < 1real,
+        ub == r_powi(1real - (5real / 10real) * o.alpha.v(), 2) * (4real * b), (1real - rho) * wb == ub, (1real - rho) * hb == wb
+    ensures ({ let nx = cc_step(o, y); nx.alpha == o.alpha && nx.n == o.n && cc_within(nx, b, wb, hb) })
+{
+    let a = o.alpha.v(); let r = 1real - a;
+    let g = r_powi(1real - (5real / 10real) * a, 2);
+    ax_powi2(1real - (5real / 10real) * a); ax_powi2(r); lemma_sq_nonneg(1real - (5real / 10real) * a);
+    assert(g >= 0real);
+    assert(ub >= 0real) by(nonlinear_arith) requires ub == g * (4real * b), g >= 0real, b >= 0real;
+    assert(wb >= 0real) by(nonlinear_arith) requires (1real - rho) * wb == ub, ub >= 0real, rho < 1real;
+    assert(hb >= 0real) by(nonlinear_arith) requires (1real - rho) * hb == wb, wb >= 0real, rho < 1real;
+    let full = o.vals.len() >= o.n && o.vals.len() > 0;
+    let v1 = wpush(o.vals, y, o.n);
+    let o1 = if full { o.outs.drop_first() } else { o.outs };
+    assert(all_within(v1, b)) by {
+        assert forall|k: int| 0 <= k < v1.len() implies -b <= (#[trigger] v1[k]).v() <= b by {
+            if full { if k < v1.len() - 1 { assert(v1[k] == o.vals[k + 1]); } else { assert(v1[k] == y); } }
+            else { if k < o.vals.len() { assert(v1[k] == o.vals[k]); } else { assert(v1[k] == y); } }
+        }
+    }
+    assert(all_within(o1, hb)) by {
+        assert forall|k: int| 0 <= k < o1.len() implies -hb <= (#[trigger] o1[k]).v() <= hb by { if full { assert(o1[k] == o.outs[k + 1]); } }
+    }
+    assert forall|j: int| 1 <= j < o1.len() implies -wb <= (#[trigger] o1[j]).v() - r * o1[j - 1].v() <= wb by {
+        if full { assert(o1[j] == o.outs[j + 1]); assert(o1[j - 1] == o.outs[j]); }
+    }
+    let nx = cc_step(o, y);
+    if v1.len() < o.n {
+        // still filling: every stored output is 0 and another 0 is stored
+        assert(!full);
+        let z = mk(0real);
+        assert(nx.outs == o1.push(z));
+        assert(r * 0real == 0real) by(nonlinear_arith);
+        assert forall|j: int| 0 <= j < nx.outs.len() implies (#[trigger] nx.outs[j]).v() == 0real by { if j < o1.len() { assert(nx.outs[j] == o1[j]); } }
+        assert(all_within(nx.outs, hb));
+        assert forall|j: int| 1 <= j < nx.outs.len() implies -wb <= (#[trigger] nx.outs[j]).v() - r * nx.outs[j - 1].v() <= wb by {
+            assert(nx.outs[j].v() == 0real); assert(nx.outs[j - 1].v() == 0real);
+        }
+    } else {
+        let last = v1.len() - 1;
+        assert(v1.len() == o.n && last >= 2 && o1.len() == last);
+        lemma_cc_sm_bound(v1, last, b); lemma_cc_sm_bound(v1, last - 1, b); lemma_cc_sm_bound(v1, last - 2, b);
+        let d = cc_sm(v1, last) - 2real * cc_sm(v1, last - 1) + cc_sm(v1, last - 2);
+        assert(-(4real * b) <= d <= 4real * b);
+        let u = g * d;
+        assert(g * d <= g * (4real * b)) by(nonlinear_arith) requires g >= 0real, d <= 4real * b;
+        assert(g * d >= -(g * (4real * b))) by(nonlinear_arith) requires g >= 0real, d >= -(4real * b);
+        let h1 = o1[last - 1].v(); let h2 = o1[last - 2].v();
+        assert(-wb <= h1 - r * h2 <= wb);
+        lemma_double_pole_forced(r, rho, u, h1, h2, ub, wb, hb);
+        let cc = u + 2real * r * h1 - (r * r) * h2;
+        assert(nx.outs == o1.push(mk(cc)));
+        assert forall|k: int| 0 <= k < nx.outs.len() implies -hb <= (#[trigger] nx.outs[k]).v() <= hb by { if k < o1.len() { assert(nx.outs[k] == o1[k]); } }
+        assert forall|j: int| 1 <= j < nx.outs.len() implies -wb <= (#[trigger] nx.outs[j]).v() - r * nx.outs[j - 1].v() <= wb by {
+            if j < o1.len() { assert(nx.outs[j] == o1[j]); assert(nx.outs[j - 1] == o1[j - 1]); }
+            else { assert(nx.outs[j].v() == cc); assert(nx.outs[j - 1] == o1[last - 1]); }
+        }
+    }
+}
+pub proof fn lemma_cyber_cycle_bibo(i: CyberCycleOwn, h: Seq<T>, b: real, rho: real, ub: real, wb: real, hb: real)
+    requires i.n >= 3, b >= 0real, all_within(h, b), i.vals.len() == 0, i.outs.len() == 0,
+        -rho <= 1real - i.alpha.v() <= rho, 0real <= rho < 1real,
+        ub == r_powi(1real - (5real / 10real) * i.alpha.v(), 2) * (4real * b), (1real - rho) * wb == ub, (1real - rho) * hb == wb
+    ensures ({ let s = run::<CyberCycle<Echo>>((None::<T>, i), h); s.1.alpha == i.alpha && s.1.n == i.n && cc_within(s.1, b, wb, hb) })
+    decreases h.len()
+{
+    if h.len() > 0 {
+        let hd = h.drop_last(); let y = h.last();
+        assert(-b <= y.v() <= b) by { assert(h.last() == h[h.len() - 1]); }
+        assert(all_within(hd, b)) by { assert forall|k: int| 0 <= k < hd.len() implies -b <= (#[trigger] hd[k]).v() <= b by { assert(hd[k] == h[k]); } }
+        lemma_cyber_cycle_bibo(i, hd, b, rho, ub, wb, hb);
+        let s = run::<CyberCycle<Echo>>((None::<T>, i), hd);
+        lemma_cyber_cycle_bibo_step(s.1, y, b, rho, ub, wb, hb);
+    } else {
+        assert(run::<CyberCycle<Echo>>((None::<T>, i), h) == (None::<T>, i));
     }
 }
